@@ -29,6 +29,7 @@ class GenOpts(object):
         self.unset_bias = (12, 15)    # 1/n of union arms / struct members are left unset
         self.allow_const_refs = True
         self.enum_aliases = True      # enumerators repeating an earlier value (legal in the prophy language, refused by isar)
+        self.alias_focus = 0          # 1/n of schemas end with typedef chains over a dynamic and a fixed struct, used as element / optional types
         self.chain_focus = 0          # 1/n of schemas end with typedef -> struct/union -> enumerator-sized array chains
         self.tail_focus = 0           # 1/n of schemas end with a (struct ending in greedy, struct ending in that struct) pair
         self.const_ref_bias = 6      # 1/n of sizes / discriminators refer to a constant when one fits
@@ -342,7 +343,49 @@ class _Builder(object):
             self.add_tail_pair()
         if self.o.chain_focus and self.draw(st.integers(0, self.o.chain_focus - 1)) == 0:
             self.add_dependency_chain()
+        if self.o.alias_focus and self.draw(st.integers(0, self.o.alias_focus - 1)) == 0:
+            self.add_alias_chains()
         return Schema(self.decls)
+
+    def add_alias_chains(self):
+        """Typedef chains (depth 1-3) over a dynamic struct and over a fixed struct, used where the generators must
+        look through the aliases: element of dynamic / greedy arrays, optional, fixed and limited arrays, union arm."""
+        def scalar():
+            return self.draw(st.sampled_from(self.numeric_pool()))
+        dyn = self.fresh('S')
+        self.decls.append(Struct(dyn, [Member('hd', scalar()), Member('xs', scalar(), DYNARR)] +
+                                 ([Member('tl', scalar())] if self.draw(st.booleans()) else [])))
+        self.stiff[dyn] = DYNAMIC
+        self.vec[dyn] = False
+        fix = self.fresh('S')
+        self.decls.append(Struct(fix, [Member('p', scalar()), Member('q', scalar())]))
+        self.stiff[fix] = FIXED
+        self.vec[fix] = False
+
+        def chain(target, stiffness):
+            name = target
+            for _ in range(self.draw(st.integers(1, 3))):
+                t = self.fresh('T')
+                self.decls.append(Typedef(t, name))
+                self.stiff[t] = stiffness
+                self.vec[t] = False
+                name = t
+            return name
+        da, fa = chain(dyn, DYNAMIC), chain(fix, FIXED)
+        user = self.fresh('S')
+        members = [Member('cnt', 'u8'), Member('da', da, DYNARR), Member('fo', fa, OPT), Member('ff', fa, FIXARR, 2),
+                   Member('fl', fa, LIMARR, 3), Member('one', da)]
+        if self.o.allow_ext:
+            members.append(Member('de', da, EXTARR, sizer='cnt'))
+        if self.o.allow_greedy and self.draw(st.booleans()):
+            members.append(Member('dg', da, GREEDY))
+        self.decls.append(Struct(user, members))
+        self.stiff[user] = UNLIMITED if members[-1].kind == GREEDY else DYNAMIC
+        self.vec[user] = True
+        un = self.fresh('U')
+        self.decls.append(Union(un, [Arm(1, fa, 'fa'), Arm(2, 'u16', 'n')]))
+        self.stiff[un] = FIXED
+        self.vec[un] = False
 
     def add_dependency_chain(self):
         """typedef -> struct / union -> (array size / discriminator) enumerator or constant: a definition that is
